@@ -1126,16 +1126,20 @@ func (r *Resolver) buildIterator(ctx context.Context, req *Request, iter storage
 
 	// STEP 3: Build filter chain
 	iterFilters := make([]iterator.FilterFunc[*openfgav1.TupleKey], 0, 2)
-	if visited != nil {
-		iterFilters = append(iterFilters, BuildUniqueTupleKeyFilter(visited, func(key *openfgav1.TupleKey) string {
-			return key.GetUser() // this is a userset (object#relation)
-		}))
-	}
 
 	// STEP 4: Condition filter - evaluates conditions at retrieval time
 	// This uses the cached tuple's condition context + request context
 	if len(conditions) > 1 || conditions[0] != authzGraph.NoCond {
 		iterFilters = append(iterFilters, BuildConditionTupleKeyFilter(ctx, r.model, conditions, req.GetContext()))
+	}
+
+	// STEP 5: De-duplication filter. It records the userset as visited, so it must run
+	// last: a tuple rejected by its condition must not hide another tuple that reaches
+	// the same userset.
+	if visited != nil {
+		iterFilters = append(iterFilters, BuildUniqueTupleKeyFilter(visited, func(key *openfgav1.TupleKey) string {
+			return key.GetUser() // this is a userset (object#relation)
+		}))
 	}
 
 	if len(iterFilters) > 0 {
